@@ -112,3 +112,33 @@ void attribute_layouts()
     log_sev_only::info() << "severity, no tag";
 }
 } // namespace vwit
+
+// ---------------------------------------------------------------- lazy-message probes (R05.11)
+// function objects a user may stream: the call operator is not const (it caches / counts), and the type is printable as well. Whether the
+// statement evaluates them lazily - calls them, once, only when the record is wanted - is decided by which operator<< overload is selected.
+namespace vwit
+{
+struct counting_report
+{
+    int calls = 0;
+    std::string operator()()
+    {
+        ++calls;
+        return "report";
+    }
+};
+inline std::ostream& operator<<(std::ostream& s, const counting_report&)
+{
+    return s << "<counting_report>";
+}
+void lazy_probes()
+{
+    counting_report named;
+    log_plain::warn() << counting_report{};
+    log_plain::warn() << named;
+    auto st = log_plain::warn();
+    st << counting_report{};
+    st << named;
+}
+} // namespace vwit
+
